@@ -309,7 +309,7 @@ def safe_gwf_to_pns(gwf, rf, dt, hw, do_padding=True):
 
     if do_padding:
         zpt = safe_longest_time_const(hw) * 4 / 1000  # s
-        pad1 = round(zpt / 4 / dt)
+        pad1 = max(round(zpt / 4 / dt), 1)
         pad2 = round(zpt / 1 / dt)
 
         gwf = np.pad(gwf, ((pad1, pad2), (0, 0)))
